@@ -4,7 +4,7 @@
    token stream from the real implementation. *)
 From Coq Require Import String Ascii.
 From Radius Require Import Base.Bytes Base.Guard Base.Res Gen.Consts
-  Model.Attrs Model.Packet Model.Passwords Model.Codecs Spec.C10 Spec.C09 Spec.C01 Spec.C03 Spec.C04 Spec.C11.
+  Model.Attrs Model.Packet Model.Passwords Model.Codecs Model.Client Model.Shutdown Model.ShutdownSched Spec.C05 Spec.C10 Spec.C09 Spec.C01 Spec.C03 Spec.C04 Spec.C11.
 From Radius Require Import Crypto.MD5.
 Open Scope list_scope.
 Open Scope nat_scope.
@@ -216,6 +216,43 @@ Definition dispatch_codec (name : bytes) (bs : list bytes) (zs : list Z) : optio
   else if name_is name "s.new_prefix" then Some (t_res_s (spec_new_ipv6prefix (b1 bs) (b2 bs)) t_bytes)
   else None.
 
+(* ---- C05 ---- *)
+Definition t_outcome (o : outcome) : list tok :=
+  match o with
+  | Returned p i => TI 0 :: t_packet p
+  | Failed e i => [TI 1; TI (Z.of_N e)]
+  | Waiting c => [TI 2]
+  end.
+Definition t_soutcome (o : soutcome) : list tok :=
+  match o with
+  | SReturned t i => TI 0 :: t_tuple t
+  | SFailed e i => [TI 1; TI (Z.of_N e)]
+  | SWaiting c => [TI 2]
+  end.
+Definition dispatch_client (name : bytes) (bs : list bytes) (zs : list Z) : option (list tok) :=
+  if name_is name "m.client" then
+    Some (t_outcome (exchange_recv md5 (z1 zs) (nth 1 zs 0 =? 1)%Z (b1 bs) (b2 bs) (skipn 2 bs)))
+  else if name_is name "s.client" then
+    Some (t_soutcome (spec_exchange_recv md5 (z1 zs) (nth 1 zs 0 =? 1)%Z (b1 bs) (b2 bs) (skipn 2 bs)))
+  else None.
+
+(* ---- C07 ---- *)
+Fixpoint take_hacts (zs : list Z) : list hact :=
+  match zs with
+  | k :: a :: b :: r =>
+    (if k =? 0 then HServe (Z.to_nat a) else if k =? 1 then HRelease (Z.to_nat a)
+     else if k =? 2 then HDeliver (Z.to_nat a) (b =? 1) else if k =? 3 then HHandlerDone (Z.to_nat a)
+     else if k =? 4 then HShutdown else if k =? 5 then HWait (Z.to_nat a) else HExpire (Z.to_nat a))%Z
+    :: take_hacts r
+  | _ => []
+  end.
+Definition dispatch_sched (name : bytes) (bs : list bytes) (zs : list Z) : option (list tok) :=
+  if name_is name "m.sched" then
+    Some (flat_map (fun l => TI (-1) :: map TI l) (run_hacts false Model.Shutdown.init (take_hacts zs)))
+  else if name_is name "m.sched_legacy" then
+    Some (flat_map (fun l => TI (-1) :: map TI l) (run_hacts true Model.Shutdown.init (take_hacts zs)))
+  else None.
+
 Definition dispatch (name : bytes) (bs : list bytes) (zs : list Z) : list tok :=
   if name_is name "m.attrs_run" then run_attrs false bs zs
   else if name_is name "s.attrs_run" then run_attrs true bs zs
@@ -223,7 +260,9 @@ Definition dispatch (name : bytes) (bs : list bytes) (zs : list Z) : list tok :=
   else match dispatch_c01 name bs zs with Some t => t | None =>
   match dispatch_pw name bs zs with Some t => t | None =>
   match dispatch_codec name bs zs with Some t => t | None =>
-  [TI (-97)] end end end.
+  match dispatch_client name bs zs with Some t => t | None =>
+  match dispatch_sched name bs zs with Some t => t | None =>
+  [TI (-97)] end end end end end.
 
 Require Extraction.
 Require Import ExtrOcamlBasic.
